@@ -2,7 +2,9 @@ package c16
 
 import (
 	"crypto/ecdsa"
+	"errors"
 	"fmt"
+	"time"
 
 	"github.com/emmansun/gmsm/pkcs7"
 	"testing"
@@ -242,4 +244,83 @@ func TestC16_SignedWrongContent(t *testing.T) {
 		func(t *rapid.T) wrongCase {
 			return wrongCase{Spec: drawSigned(t), How: rapid.IntRange(0, 4).Draw(t, "how"), At: rapid.Uint64().Draw(t, "at")}
 		}, checkWrongContent)
+}
+
+// ---------------------------------------------------------------- signing time against the certificate's validity
+
+// pkcs7 documents (InvalidSigningTimeError) that a signingTime attribute
+// outside the signer certificate's validity makes verification fail; a
+// message without the attribute carries no time and verifies without a trust
+// store; against a trust store the chain is checked at the given instant. The
+// signer here holds a certificate that expired in 2001, the library stamps
+// signingTime with its clock (assumed to be later than 2001).
+type expiredCase struct {
+	NoAttr bool
+	Mode   int
+	Len    int
+	Seed   uint64
+}
+
+func checkExpired(c expiredCase, r *h.Rec) error {
+	r.Label("expired-signer:%s", map[bool]string{true: "noattr", false: "attr"}[c.NoAttr])
+	r.NT()
+	var out error
+	withRand(gen.Mix(c.Seed, 0xE8), func() {
+		b, err := buildSigned(sdSpec{SM: true, Mode: c.Mode, Len: c.Len, Seed: c.Seed, Signers: []signerSpec{{Id: "sm2-expired", Digest: "sm3", NoAttr: c.NoAttr}}})
+		if err != nil {
+			out = fmt.Errorf("signing with an expired certificate is refused (the API documents no such check): %v", err)
+			return
+		}
+		p7, err := pkcs7.Parse(b.der)
+		if err != nil {
+			out = fmt.Errorf("Parse: %v", err)
+			return
+		}
+		err = verifyP7(p7, c.Mode, b.external())
+		var ite *pkcs7.InvalidSigningTimeError
+		switch {
+		case c.NoAttr && err != nil:
+			out = fmt.Errorf("a message without signingTime does not verify without a trust store: %v: %x", err, b.der)
+		case !c.NoAttr && err == nil:
+			out = fmt.Errorf("a message whose signingTime (now) lies outside the signer certificate's validity (..2001) VERIFIES: %x", b.der)
+		case !c.NoAttr && !errors.As(err, &ite):
+			out = fmt.Errorf("verification fails with %v, documented is InvalidSigningTimeError: %x", err, b.der)
+		}
+		if out != nil {
+			return
+		}
+		// against the trust store the expired certificate is never acceptable at the fixed instant (2030)
+		q, _ := pkcs7.Parse(b.der)
+		q.Content = p7.Content
+		if err := q.VerifyWithChainAtTime(fix().pool, &fixedNow); err == nil {
+			out = fmt.Errorf("verification against the trust store in 2030 accepts a signer certificate that expired in 2001: %x", b.der)
+			return
+		}
+		// ... but is acceptable at an instant inside its validity, when no signingTime contradicts it
+		in2000 := time.Date(2000, 6, 1, 0, 0, 0, 0, time.UTC)
+		q, _ = pkcs7.Parse(b.der)
+		q.Content = p7.Content
+		err = q.VerifyWithChainAtTime(fix().pool, &in2000)
+		if c.NoAttr && c.Mode != modeDigest && err != nil {
+			out = fmt.Errorf("verification against the trust store at an instant inside the certificate's validity fails: %v: %x", err, b.der)
+		}
+		if !c.NoAttr && err == nil {
+			out = fmt.Errorf("VerifyWithChainAtTime accepts although signingTime lies outside the certificate's validity: %x", b.der)
+		}
+	})
+	return out
+}
+
+func TestC16_SigningTimeValidity(t *testing.T) {
+	h.Sweep(t, h.P{Name: "signing-time-validity"}, func(emit func(expiredCase)) {
+		i := 0
+		for _, n := range []int{0, 1, 64, 500} {
+			for _, noattr := range []bool{false, true} {
+				for _, mode := range []int{modeAttached, modeDetached, modeDigest} {
+					i++
+					emit(expiredCase{NoAttr: noattr, Mode: mode, Len: n, Seed: gen.Mix(h.Seed, uint64(i))})
+				}
+			}
+		}
+	}, checkExpired)
 }
